@@ -307,13 +307,23 @@ def check_naming(report):
                  "the version segment must be v<n>, optionally followed by p<n>, optionally followed by alpha|beta and digits - the two optional "
                  "parts in sequence, so that v1p1beta1 is one version")
         r5.check(pat.startswith("\\."), p, fn.lineno, pat, "the version is a whole dotted segment of the package")
-    for cls, exp in (("NewNaming", "self.module_name + (f'_{self.version}' if self.version else '')"),
-                     ("OldNaming", "self.module_name + (f'.{self.version}' if self.version else '')")):
+    # decided by evaluating the (pure string) normal form on marker constants for both cases of `version` (empty / not empty)
+    from ..pymodel import nreturn
+    from ..pyeval import Evaluator, UNKNOWN
+    for cls, sep in (("NewNaming", "_"), ("OldNaming", ".")):
         mem = m.func(f"gapic.schema.naming.{cls}.versioned_module_name")
-        rets = [n for n in ast.walk(mem.node) if isinstance(n, ast.Return)]
+        e = nreturn(m, mem)
+        r5.need(e is not None, f"{cls}.versioned_module_name", "does not reduce to one expression")
         r5.instance(f"{cls}.versioned_module_name")
-        r5.check(len(rets) == 1 and ast.unparse(rets[0].value) == exp, p, mem.node.lineno, ast.unparse(rets[0].value) if rets else "",
-                 f"{cls}: <name>{'_' if cls == 'NewNaming' else '.'}<version>, or <name> alone when unversioned")
+        bad = []
+        for ver in ("", "<V>"):
+            v = Evaluator({"self": {"module_name": "<M>", "version": ver}}).ev(e)
+            r5.need(v is not UNKNOWN, f"{cls}.versioned_module_name", f"cannot evaluate `{ast.unparse(e)[:100]}` for version={ver!r}")
+            want = f"<M>{sep}{ver}" if ver else "<M>"
+            if v != want:
+                bad.append(f"version={ver!r}: {v!r}, expected {want!r}")
+        r5.check(not bad, p, mem.node.lineno, f"{ast.unparse(e)[:100]}: {'; '.join(bad)}" if bad else ast.unparse(e)[:100],
+                 f"{cls}: <name>{sep}<version>, or <name> alone when unversioned")
     # overrides after inference
     infer = [n for n in fn.body if isinstance(n, ast.Assign) and isinstance(n.value, ast.Call)
              and {"proto_package", "version"} <= {k_.arg for k_ in n.value.keywords}]
